@@ -1,8 +1,9 @@
 """C02 - every JSON output row is valid JSON for its value, in all styles; fixpoint"""
-from ..scen_print import print_string, print_numbers, json_framing
+from ..scen_print import print_string, print_numbers, json_framing, print_structure
 
 
 def run(ctx):
     print_string(ctx)
     print_numbers(ctx)
     json_framing(ctx)
+    print_structure(ctx)
